@@ -139,6 +139,22 @@ class Machine(RuleBasedStateMachine):
         if self.model.set(T) == "same-second":
             STATS["reset_same_second"] += 1
 
+    @precondition(lambda self: self.model is not None and bool(self.model.cands))
+    @rule(k=st.sampled_from([1, -1, 2, -2, 3]), unit=st.sampled_from([65536, 65536, 32768, 256, 65535, 65537, 2**24, 2**16 * 1000]),
+          extra=st.integers(-1, 1))
+    def set_power_of_two_away(self, k, unit, extra):
+        if self.failed:
+            return
+        # re-set to a value whose distance from the second currently shown is (close to) a multiple of a power of two
+        # (differences that vanish in a narrower integer type)
+        T = self.model.reading(self.model.cands[0]) + k * unit + extra
+        if not (-2**31 + 2 <= T <= 2**31 - 70000):
+            return
+        self.ops.append(["set", T])
+        cmd("SET %d" % T)
+        self.model.set(T)
+        STATS["power_of_two_resets"] = STATS.get("power_of_two_resets", 0) + 1
+
     @precondition(lambda self: self.model is not None)
     @rule()
     def set_sentinel(self):
@@ -326,7 +342,7 @@ def run(ctx):
     run_state_machine_as_test(hypothesis.seed(ctx.seed)(Machine), settings=sett)
     ctx.evaluations += STATS["reads"]
     ctx.nontrivial += len(STATS["nontrivial"])
-    for k in ("runs", "steps", "reads", "reset_same_second", "wrap16", "wrap32", "sentinel_sets", "max_gap_steps", "unpolled_advances"):
+    for k in ("runs", "steps", "reads", "reset_same_second", "wrap16", "wrap32", "sentinel_sets", "max_gap_steps", "unpolled_advances", "power_of_two_resets"):
         ctx.count("schedule_" + k, STATS[k])
     for s in SAMPLES:
         ctx.sample(s)
